@@ -549,7 +549,9 @@ class Ev:
                     Rat.const(Fr(str(e.value.imag))) * Rat.atom('I')
             c = const_of(e)
             if c is None:
-                raise Inconclusive(f'constant {e.value!r}')
+                if isinstance(e.value, bool):
+                    return ONE if e.value else ZERO
+                return Rat.atom(f'const:{e.value!r}')
             return Rat.const(c)
         if isinstance(e, ast.Name):
             if e.id in self.env:
